@@ -53,3 +53,32 @@ def C17_types_latch(case, params):
         return C.history_fails(stripped) is None
     except Exception:
         return False
+
+
+def C17_arg_alias(case, params):
+    """an API function keeps the caller's container: the unrelated history hands the SAME object that A was given to
+    another problem (or the caller keeps using it).  Decided from the case; confirmed by removing those operations."""
+    kind = case.get("kind")
+    if kind == "alias":
+        return case.get("probe") == params.get("probe")
+    if kind == "alias-site":
+        return case.get("site") in params.get("sites", [])
+    if kind != "history" or case.get("arm") == "poison":
+        return False
+    c = case["case"]
+    keys = {s["key"] for s in c["A"]["steps"] if s["s"] == "argset" and s["api"] in params.get("apis", [])}
+    if not keys:
+        return False
+    touched = any(op.get("key") in keys or (op.get("n") == "arg_inplace" and op.get("api") in params.get("apis", []))
+                  for g in c["noise"] for op in g)
+    if not touched:
+        return False
+    import props.C17 as C
+    stripped = json.loads(json.dumps(c))
+    stripped["noise"] = [[op for op in g if not op.get("n", "").startswith("arg")] for g in stripped["noise"]]
+    try:
+        if C.TABLE is None:
+            C.set_table()
+        return C.history_fails(stripped) is None
+    except Exception:
+        return False
